@@ -997,9 +997,32 @@ func (ex *Exec) havocLike(s *State, old Value, hint string) Value {
 }
 
 func (ex *Exec) pureCall(c *ssa.Call) bool {
+	// callbacks handed in by the caller (yield, restore, predicate): assumed not to modify the
+	// tree ("with the tree unchanged" in the statement of the sequence properties)
+	if !c.Call.IsInvoke() && c.Call.StaticCallee() == nil {
+		if _, isB := c.Call.Value.(*ssa.Builtin); !isB {
+			switch v := c.Call.Value.(type) {
+			case *ssa.Parameter:
+				return true
+			case *ssa.UnOp:
+				if _, isFV := v.X.(*ssa.FreeVar); isFV {
+					return true
+				}
+			case *ssa.FreeVar:
+				return true
+			}
+		}
+	}
 	if b, ok := c.Call.Value.(*ssa.Builtin); ok {
 		switch b.Name() {
-		case "len", "cap", "min", "max", "append":
+		case "len", "cap", "min", "max", "append", "Slice", "SliceData", "ssa:wrapnilchk":
+			return true
+		}
+		return false
+	}
+	if c.Call.IsInvoke() {
+		switch c.Call.Method.Name() {
+		case "getKey", "getTransformKey": // accessors of the leaf type parameter
 			return true
 		}
 		return false
@@ -1048,7 +1071,7 @@ func (ex *Exec) constVal(c *ssa.Const) Value {
 		if bt := ex.bindings[tp.Obj().Name()]; bt != nil {
 			t = bt
 		} else {
-			if c.Value == nil {
+			if c.Value == nil || c.Value.ExactString() == "0" {
 				// zero value of a type parameter: a distinguished constant
 				return OpaqueV{T: ex.st.Const("zero."+tp.Obj().Name(), ex.scalarSort(t)), Typ: t}
 			}
